@@ -69,6 +69,27 @@ SHORT = {
  'C18-4': 'voxel_filter keys voxels by a float row-major index (float32 collisions on grids > 2^24 cells)',
  'C20-3': 'ReduceToBason budget test == instead of >= (never hit after MPC decrements max_steps to 0)',
  'C20-4': 'StopOnPlateau re-arms _continual on every call (continual() true again after a stop)',
+ # fourth batch (agents told about all four earlier changes of their property)
+ 'C01-5': 'rxso3_Ws masks sigma in place on a view of the caller\'s twist (scale e instead of 1 for log-scale 0; input overwritten)',
+ 'C01-6': 'rxso3_Ws "rotation-free" shortcut guarded by not all() instead of not any() (mixed batches lose A K + B K^2)',
+ 'C02-5': 'Sim3_Log inverts the coupling matrix in float32 for every dtype (float64 Log loses 9 digits)',
+ 'C02-6': 'RxSO3_Log snaps scales with |s-1| < sqrt(eps) to sigma = 0',
+ 'C04-5': 'SE3 Act fast path (matrix form) for one pose and >= 512 points: quaternion gradient instead of the left-perturbation Jacobian',
+ 'C04-6': 'so3_Jl switches at theta > 0 instead of eps (NaN gradients where theta^3 underflows)',
+ 'C05-5': 'the step of + / add_ is wrapped to (-pi, pi] before Exp (SE3/Sim3 translation is not periodic)',
+ 'C05-6': 'SE3/Sim3 AdjT invert each pose once and tile with repeat (wrong pairing for a non-leading size-1 batch axis)',
+ 'C07-5': 'flatten_row_jacobian zips all Jacobian blocks with the trainable numels (frozen-first parameter: wrong block)',
+ 'C07-6': 'auto correctors filtered for None kernels (same mutation as C09-3, found independently)',
+ 'C10-5': 'Cholesky solve step ignores upper=True',
+ 'C10-6': 'PINV caches pinv(A) by tensor identity (stale after an in-place update of A)',
+ 'C11-5': 'from_matrix passes (atol, rtol) positionally into (rtol, atol)',
+ 'C11-6': 'euler() gimbal margin max(eps, sqrt(finfo.eps)): wider fallback band in float32',
+ 'C13-5': 'PF likelihood via solve_triangular(left=False) on row residuals (wrong quadratic form for non-diagonal R)',
+ 'C13-6': 'UKF adds finfo.eps * I to P before the matrix square root (float32, small covariances)',
+ 'C16-5': 'carried rotation taken from the supplied known rotation instead of the integrated one',
+ 'C16-6': 'initial covariance propagated as A C A instead of A C A^T',
+ 'C19-5': 'default transform of ape/rpe is an lru_cached identity that origin=True overwrites in place',
+ 'C19-6': 'pairs_by_dist starts the path at the world origin (distance pairing depends on absolute position)',
 }
 rows = ['| change | what it does | run against | quick check |', '|---|---|---|---|']
 names = sorted(d for d in os.listdir(os.path.join(V, 'seeded')) if os.path.isdir(os.path.join(V, 'seeded', d)))
